@@ -154,11 +154,11 @@ deriving DecidableEq, Repr
 /-! ## providers and stake -/
 
 def addBlobber (s : State) (i cap price : Nat) : R :=
-  match s.blobbers i with
-  | some _ => .error (.inadm "blobber-exists")
-  | none =>
+  match s.blobbers i, s.sps i with
+  | none, none =>
     .ok { s with blobbers := s.blobbers.set i (some ⟨cap, 0, 0, false, price⟩),
                  sps := s.sps.set i (some ⟨0, 0, 0, false⟩) }
+  | _, _ => .error (.inadm "blobber-exists")
 
 def addValidator (s : State) (i : Nat) : R :=
   match s.vsps i with
